@@ -403,3 +403,147 @@ def add_interface_raw(reg):
     for s in specs:
         reg.add(s)
     return specs
+
+
+# ---- MetadorMeta.get: what is handed out is parsed NOW, from the stored bytes, with the REQUESTED schema's class (C07) -----
+
+HAS_HIT = z3.Function("query_yields_a_compatible_object", Key, B)
+
+
+class HitRef(SVal):
+    """the first schema ref the query yields for the request"""
+
+    def __init__(self, k):
+        self.k = k
+
+    def py_truth(self, cx):
+        return True
+
+    def py_getattr(self, cx, name):
+        if name == "name":
+            return SStr(z3.Function("hit_schema_name", Key, S)(self.k))
+        if name == "version":
+            return VerOfHit(self.k)
+        raise Unsupported("ref attribute " + name)
+
+
+class VerOfHit(SVal):
+    def __init__(self, k):
+        self.k = k
+
+
+class StoredObj(SVal):
+    def __init__(self, k):
+        self.k = k
+
+    def py_truth(self, cx):
+        return True
+
+    def py_getattr(self, cx, name):
+        if name == "node":
+            return StoredNode(self.k)
+        raise Unsupported("stored object attribute " + name)
+
+
+class StoredNode(SVal):
+    def __init__(self, k):
+        self.k = k
+
+    def py_getitem(self, cx, idx):
+        if idx != ():
+            raise Unsupported("dataset read other than [()]")
+        cx.effect("read-stored-bytes", self.k)
+        return StoredBytes(self.k)
+
+
+class StoredBytes(SVal):
+    def __init__(self, k):
+        self.k = k
+
+
+class MetaGet(FnSpec):
+    file = "container/interface.py"
+    qual = "MetadorMeta.get"
+    props = ("C07", "C15")
+    raises_exact = False
+
+    def init(self):
+        self.bindings["NodeAcl"] = NodeAclEnum()
+        self.bindings["plugin_args"] = lambda cx, k, v=None, **kw: (SStr(KEY_NAME(k.t)), VerVal(k.t))
+        self.bindings["next"] = lambda cx, it, default=None: it.first(cx, default)
+        self.bindings["cast"] = lambda cx, t, v: v
+
+    def setup(self, cx):
+        m = meta_obj(cx)
+        m.skel_only = z3.Bool("node_skel_only")
+        m.cls = "MetadorMetaGet"
+        return A(self=m, schema=KeyVal(z3.Const("schema_key", Key)))
+
+    def raises(self, cx, a):
+        k = a.schema.t
+        return {"UnsupportedOperationError": a.self.skel_only, "KeyError": z3.Not(INSTALLED(k)), "TypeError": AUX(k), "ValidationError": z3.BoolVal(True)}
+
+    def on_raise(self, cx, a, exc):
+        if exc.cls == "UnsupportedOperationError":
+            return [("skeleton-only-node-hands-out-nothing", z3.BoolVal(not [e for e in cx.fx if e[0] in ("read-stored-bytes", "parse")]), "a skel_only node never reads or parses metadata")]
+        return []
+
+    def ensures(self, cx, a, res):
+        k = a.schema.t
+        parses = [e for e in cx.fx if e[0] == "parse"]
+        reads = [e for e in cx.fx if e[0] == "read-stored-bytes"]
+        hit = HAS_HIT(k)
+        ok = len(parses) == 1 and len(reads) == 1 and isinstance(res, ParsedObj) and res is parses[0][3]
+        return [
+            ("not-for-skeleton-only-nodes", z3.Not(a.self.skel_only), "metadata objects are only handed out by nodes that are not skel_only"),
+            ("none-iff-nothing-compatible", z3.BoolVal(res is None) == z3.Not(z3.And(hit, HIT_STORED(k))), "None exactly when no compatible object is attached"),
+            ("parsed-now-from-the-stored-bytes-with-the-requested-class", z3.Implies(z3.And(hit, HIT_STORED(k)), z3.BoolVal(ok and parses[0][1].k is k if ok else False)), "the object handed out is parsed in this call from the bytes stored for the compatible schema, by the class of the REQUESTED schema (so a view through an ancestor schema is an instance of the ancestor, and a later request by the object's own schema gets the own class again)"),
+        ]
+
+
+HIT_STORED = z3.Function("object_of_the_yielded_schema_is_stored", Key, B)
+
+
+class ParsedObj(SVal):
+    def py_truth(self, cx):
+        return True
+
+
+class QueryIter(SVal):
+    def __init__(self, k):
+        self.k = k
+
+    def first(self, cx, default=None):
+        return SMaybe(z3.Not(HAS_HIT(self.k)), HitRef(self.k)) if default is None else None
+
+
+def add_interface_get(reg):
+    c = "MetadorMetaGet"
+    reg.set_class_home(c, "container/interface.py", "MetadorMeta")
+    reg.method_bindings[(c, "query")] = lambda cx, m, name, ver=None: QueryIter(ver.k)
+
+    def require_schema(cx, m, name, ver):
+        k = ver.k
+        if not cx.decide(INSTALLED(k)):
+            cx.py_raise("KeyError", "schema not installed")
+        if cx.decide(AUX(k)):
+            cx.py_raise("TypeError", "auxiliary schema")
+        return SchemaCls(k)
+
+    def get_raw2(cx, m, name, version=None):
+        if not isinstance(version, VerOfHit):
+            raise Unsupported("_get_raw with something else than the yielded ref")
+        return SMaybe(z3.Not(HIT_STORED(version.k)), StoredObj(version.k))
+
+    def parse_obj(cx, m, cls, value):
+        o = ParsedObj()
+        cx.effect("parse", cls, value, o)
+        return o
+
+    reg.method_bindings[(c, "_require_schema")] = require_schema
+    reg.method_bindings[(c, "_get_raw")] = get_raw2
+    reg.method_bindings[(c, "_parse_obj")] = parse_obj
+    reg.method_bindings[("MetaNodeStub", "_guard_acl")] = lambda cx, node, flag, *a: (cx.py_raise("UnsupportedOperationError", "node restricted") if ((flag is MEMBERS["read_only"] and cx.decide(node.owner.read_only)) or (flag is MEMBERS["skel_only"] and cx.decide(getattr(node.owner, "skel_only", z3.BoolVal(False))))) else None)
+    s = MetaGet()
+    reg.add(s)
+    return [s]
